@@ -15,6 +15,7 @@ from . import framework
 framework.setup_import_path()
 
 import term_image  # noqa: E402
+import term_image.geometry  # noqa: E402
 import term_image.utils as _utils  # noqa: E402
 
 state = {
@@ -82,10 +83,6 @@ def set_env(term_size=None, cell_size=..., name=None, version="", fg=..., bg=...
     if name is not None:
         state["name_version"] = (name, version)
         # the styles cache the terminal identity in class attributes
-        for cls in (term_image.image.KittyImage, term_image.image.ITerm2Image):
-            for attr in ("_TERM", "_TERM_VERSION"):
-                if attr in vars(cls):
-                    pass
         term_image.image.ITerm2Image._TERM = name
         term_image.image.ITerm2Image._TERM_VERSION = version
         term_image.image.KittyImage._TERM = name
